@@ -103,7 +103,12 @@ inline void check_truth(Case &c, const std::string &tag, const Csr<double> &A, c
     for (size_t i = 0; i < A.n; ++i) { long double s = f[i], a = 0, rs = 0; for (auto j = A.ptr[i]; j < A.ptr[i + 1]; ++j) { long double p = (long double)A.val[j] * x[A.col[j]]; s -= p; a += fabsl(p); rs += fabsl(A.val[j]); }
         nr += s * s; nf += (long double)f[i] * f[i]; absAx += a * a; nx0 += (long double)x0[i] * x0[i]; nA = std::max(nA, rs); maxrow = std::max<size_t>(maxrow, A.ptr[i + 1] - A.ptr[i]); if (!std::isfinite(x[i])) finite = false; }
     nr = sqrtl(nr); nf = sqrtl(nf); absAx = sqrtl(absAx); nx0 = sqrtl(nx0); long double tv = sp.left ? (long double)sp.left_true : nr / nf;
-    if (!c.check(finite && std::isfinite((double)tv), "non-finite:" + tag, "non-finite reported residual or solution", J().n("reported", o.res).n("true", (double)tv).n("iters", o.iters))) return;
+    bool tfin = finite && std::isfinite((double)tv) && std::isfinite(o.res);
+    if (!tfin) {   // a diverging iteration may overflow: truthful iff reported and true value are both non-finite; whether divergence is allowed is the convergence clause
+        bool both = !std::isfinite(o.res) && !(finite && std::isfinite((double)tv));
+        c.check(both, "residual-mismatch:" + tag, "exactly one of (reported residual, true residual of the gathered solution) is non-finite", J().n("reported", o.res).n("true", (double)tv).n("iters", o.iters));
+        if (sp.must_converge) c.check(false, "not-converged:" + tag, "the distributed solve overflowed instead of converging on an SPD M-matrix", J().n("reported", o.res).n("iters", o.iters).n("maxiter", sp.maxiter));
+        vf::obs_sum("solves_overflowed"); return; }
     long double rel, flo;
     if (!recursive_residual(sp.solver) && !sp.left) { rel = 1e-6L; flo = 8.0L * u * (maxrow + 3) * (absAx + nf) / nf; }    // one working-precision evaluation of f - A x and its norm
     else { rel = 1e-3L; flo = 100.0L * u * (o.iters + 1) * sp.kappa * (1 + nA * nx0 / nf); }                              // recursive vs true residual gap, conditioning of the call
